@@ -253,9 +253,10 @@ func rulesC04(c *Ctx) {
 				okProv, why := false, "Cancel's argument is not a local variable"
 				if idVar != nil {
 					why = "id is not produced by jsonrpc2.DecodeID/MakeID from the decoded requestId"
+					idAliases := pre.aliasesOf(idVar)
 					for _, w := range Writes(pre.Body, false) {
 						as, ok := w.Stmt.(*ast.AssignStmt)
-						if !ok || len(as.Rhs) != 1 || pre.ObjOf(as.Lhs[0]) != idVar {
+						if !ok || len(as.Rhs) != 1 || !idAliases[pre.ObjOf(as.Lhs[0])] {
 							continue
 						}
 						ce, ok := ast.Unparen(as.Rhs[0]).(*ast.CallExpr)
